@@ -45,6 +45,9 @@ BAD_FILTERS = ["1 +", "request.target.port", "\"str\"", "request.nope == 1", "1 
 OPAQUE_OBJ = re.compile(r"let\s+(\w+)\s*=\s*request\.(source|target)\s+in\s+to_string\(\1\)")
 
 
+NEAR_RESERVED = ["Deny", "DENY", "dEnY", "deny2", "denyx", "xdeny", "den", "deny ", " deny", "deny\t", "C0", "c0 ", "direct", "allow", "nosuc", "nosuch2", "dény", "-", "0"]
+
+
 def gen(r, tier, g):
     cases = []
     n = 12000 if tier == "thorough" else 350
@@ -53,7 +56,12 @@ def gen(r, tier, g):
         conns = []
         for i in range(nconn):
             feats = "".join(f for f in FEATS if r.random() < (0.9 if f == "t" else 0.4)) or "t"
-            conns.append(("c%d" % i, feats, r.random() < 0.8))
+            # connector names are the user's: besides plain ones, names next to the reserved word `deny` (another case, a
+            # prefix, a suffix, with a blank) and names that differ from each other in case only
+            nm = "c%d" % i if r.random() < 0.7 else r.choice(NEAR_RESERVED)
+            if nm in [c[0] for c in conns]:
+                nm = "c%d" % i
+            conns.append((nm, feats, r.random() < 0.8))
         nrules = r.choice([0, 1, 1, 2, 3, 3, 4, 6, 8])
         rules = []
         for _ in range(nrules):
@@ -67,7 +75,7 @@ def gen(r, tier, g):
                 flt = g.bool_(r.choice([1, 2, 3]), {})
             rules.append((tgt, flt))
         if r.random() < 0.08:
-            rules.insert(r.randrange(len(rules) + 1), (r.choice(["deny", "c0", "nosuch"]), r.choice(BAD_FILTERS + [None])))
+            rules.insert(r.randrange(len(rules) + 1), (r.choice(["deny", "c0", "nosuch", "Deny", "DENY", "deny "]), r.choice(BAD_FILTERS + [None])))
         if r.random() < 0.05 and rules:
             rules[r.randrange(len(rules))] = ("nosuch", rules[0][1])
         req = r.choice(REQ_POOL)
